@@ -2349,6 +2349,42 @@ impl<'a, C: Crypto> TransportRunner<'a, C> {
     }
 }
 
+/// Verification hooks (feature `verif`): run the synchronous sweep steps of the transport on a
+/// stand-in for the RX / TX packet slot.
+#[cfg(feature = "verif")]
+impl<C: Crypto> TransportRunner<'_, C> {
+    /// `handle_accept_timeout_rx_packet` (`orphan == false`) or `handle_orphaned_rx_packet`
+    /// (`orphan == true`) on an occupied RX slot holding a message with the given peer and header.
+    /// Returns `true` if the sweep emptied the slot.
+    pub fn verif_sweep_rx(&self, orphan: bool, peer: Address, header: &PacketHdr) -> bool {
+        let mut packet = Packet::<MAX_RX_BUF_SIZE>::new();
+        packet.peer = peer;
+        packet.header = header.clone();
+        unwrap!(packet.buf.push(0));
+
+        if orphan {
+            self.handle_orphaned_rx_packet(&mut packet)
+        } else {
+            self.handle_accept_timeout_rx_packet(&mut packet)
+        };
+
+        packet.buf.is_empty()
+    }
+
+    /// `handle_dropped_exchange` on an empty TX slot. Returns the method's result and, if a packet
+    /// was written, its header and peer.
+    #[allow(clippy::type_complexity)]
+    pub fn verif_handle_dropped_exchange(
+        &self,
+    ) -> (Result<bool, Error>, Option<(PacketHdr, Address)>) {
+        let mut packet = Packet::<MAX_TX_BUF_SIZE>::new();
+        let result = self.handle_dropped_exchange(&mut packet);
+        let written = (!packet.buf.is_empty()).then(|| (packet.header.clone(), packet.peer));
+
+        (result, written)
+    }
+}
+
 #[derive(Copy, Clone, Default, PartialEq, Eq, Debug, Hash)]
 #[cfg_attr(feature = "defmt", derive(defmt::Format))]
 pub(crate) enum TxPayloadState {
